@@ -100,7 +100,7 @@ Inductive xerr :=
 | XNoParent       (* ENOENT / ENOTDIR from the kernel *)
 | XExists         (* EISDIR, ENOTDIR, ENOTEMPTY ... an object of the wrong kind is in the way *)
 | XAbsLink        (* absolute link target: not modelled (needs the absolute base) *)
-| XWriteThrough   (* write through an existing symlink: C11's territory, not modelled *)
+| XWriteThrough   (* (unused since writeFile replaces an existing symlink instead of writing through it) *)
 | XDigest         (* content digest mismatch *)
 | XCodec.         (* gzip / tar decoding failed *)
 
@@ -230,7 +230,11 @@ Definition extract_entry (pre : path) (umask : N) (preserve : bool) (f : fs) (e 
               let f1 := fs_set f rel (NFile c m0) in
               Ok (if preserve then fs_set f1 rel (NFile c (chmod_mode (e_mode e))) else f1)
           | Some (NDir _) => Err XExists
-          | Some (NLink _) => Err XWriteThrough
+          | Some (NLink _) =>      (* writeFile: removeSymlink, then created afresh *)
+              if parent_is_dir f rel then
+                let f1 := fs_set f rel (NFile c (create_mode file_create_bits umask (e_mode e))) in
+                Ok (if preserve then fs_set f1 rel (NFile c (chmod_mode (e_mode e))) else f1)
+              else Err XNoParent
           end
       | EDir =>
           match mkdir_all umask (e_mode e) f (rev rel) with
@@ -263,8 +267,42 @@ Fixpoint extract_list (pre : path) (umask : N) (preserve : bool) (f : fs) (es : 
 (* pushDir: ensureDir(target) = MkdirAll(target, 0777) then the extraction *)
 Definition fs_init (umask : N) : fs := [([], NDir (create_mode dir_create_bits umask 511))].
 
-Definition extract (pre : path) (umask : N) (preserve : bool) (es : list entry) : res fs :=
+(* extractTarDirectory before the root-mode fix: nothing after the last entry *)
+Definition extract_prefix (pre : path) (umask : N) (preserve : bool) (es : list entry) : res fs :=
   extract_list pre umask preserve (fs_init umask) es.
+
+(* the mode the archive records for the base directory itself: the last directory entry
+   whose name is the prefix (baseMode) *)
+Fixpoint base_mode (pre : path) (acc : option N) (es : list entry) : option N :=
+  match es with
+  | [] => acc
+  | e :: es' =>
+      match e_kind e, strip_prefix pre (e_name e) with
+      | EDir, Some [] => base_mode pre (Some (e_mode e)) es'
+      | _, _ => base_mode pre acc es'
+      end
+  end.
+
+(* narrowDirMode: permission bits outside the recorded mode are removed, sticky is taken from
+   the recorded mode, setuid/setgid/sticky already on the directory stay *)
+Definition narrow_mode (cur m : N) : N :=
+  N.lor (N.land (N.land cur perm_bits) (N.land m perm_bits))
+        (N.lor (N.land cur 3584) (N.land m 512)).
+
+(* at io.EOF: without PreservePermissions the pre-created base directory is narrowed to the
+   mode recorded for it *)
+Definition finish_base (pre : path) (preserve : bool) (es : list entry) (f : fs) : fs :=
+  if preserve then f
+  else match base_mode pre None es, fs_lookup f [] with
+       | Some m, Some (NDir cur) => fs_set f [] (NDir (narrow_mode cur m))
+       | _, _ => f
+       end.
+
+Definition extract (pre : path) (umask : N) (preserve : bool) (es : list entry) : res fs :=
+  match extract_prefix pre umask preserve es with
+  | Ok f => Ok (finish_base pre preserve es f)
+  | Err x => Err x
+  end.
 
 (* what the property expects to find at a path of the restored directory *)
 Fixpoint find_child (n : name) (ch : list (name * tree)) : option tree :=
@@ -299,8 +337,9 @@ Definition expected (umask : N) (preserve : bool) (t : tree) (p : path) : option
   | Some (Dir m _ _) => Some (NDir (restored_mode umask preserve m))
   end.
 
-(* ... and as the current code restores it: the base directory is pre-created by
-   ensureDir with 0777, its recorded mode only arrives with PreservePermissions *)
+(* ... and as the code before the root-mode fix restored it ([extract_prefix]): the base
+   directory is pre-created by ensureDir with 0777, its recorded mode only arrived with
+   PreservePermissions *)
 Definition expected_impl (umask : N) (preserve : bool) (t : tree) (p : path) : option node :=
   match p, preserve with
   | [], false =>
